@@ -17,10 +17,16 @@
    reaches it, it is removed; one whole CLIENT_CLOSED frame describing it goes to each remaining eligible
    subscriber of CLIENT_CLOSED, then one whole FAILED_MESSAGE frame naming its module id and embedding the header
    as stamped goes to each remaining eligible subscriber of FAILED_MESSAGE - and nothing else is written; the
-   delivery loop continues with the stamped header.  Cases with several simultaneous failures are decided
-   against the implementation by the correspondence and the spec oracle (check_C14). *)
+   delivery loop continues with the stamped header.
+   The whole delivery, any mix (C14_mixed_delivery, every reachable state; one level of nesting: the subscribers of
+   the two notices are themselves healthy): whatever number of recipients of one message are not writable or fail
+   on the write, every healthy recipient that passes the destination filter still gets the message exactly once
+   and unmodified, everybody else gets nothing of it, and every subscriber of FAILED_MESSAGE is told about exactly
+   the recipients that could not be served, each once, in recipient order.
+   Deeper nestings (a notice subscriber that itself fails) are decided against the implementation by the
+   correspondence and the spec oracle (check_C14). *)
 From Coq Require Import ZArith List Bool Lia.
-From Mgr Require Import Gen.MgrDefs Model.Manager Proofs.RegInv Proofs.RegTop Proofs.StepInv Proofs.Exact Proofs.ExactTop Proofs.DepartExact Proofs.FailExact.
+From Mgr Require Import Gen.MgrDefs Model.Manager Proofs.RegInv Proofs.RegTop Proofs.StepInv Proofs.Exact Proofs.ExactTop Proofs.DepartExact Proofs.FailExact Proofs.C05Inv Proofs.LoopExact.
 Import ListNotations.
 Open Scope Z_scope.
 
@@ -94,6 +100,31 @@ Proof. intros cfg fuel es u s k p hh c. exact (failing_send_exact_reachable cfg 
 Theorem C14_remaining_spec : forall s c t f, In f (remaining s c t) <-> f <> c /\ In f (snapshot s t).
 Proof. exact remaining_In. Qed.
 
+Theorem C14_mixed_delivery : forall cfg fuel es u s (k : nat) p hh,
+  run cfg fuel es = Ok u s -> 40 < loglevel cfg -> Env s ->
+  zmem (h_type hh) no_notice_types = false -> h_type hh <> ALL_MESSAGE_TYPES ->
+  bad_dest_mod (h_dst_mod hh) = false -> bad_dest_host (h_dst_host hh) = false ->
+  (forall c, In c (snapshot s (h_type hh)) -> classified (h_dst_mod hh) s c = true) ->
+  let l := snapshot s (h_type hh) in
+  let dm := h_dst_mod hh in
+  exists fr hh' s',
+    forward cfg (Datatypes.S (Datatypes.S k)) hh p s = Ok tt s' /\ out s' = out s ++ fr /\
+    Loop cfg k p hh (counted cfg (h_type hh) s) l fr hh' s' /\
+    (forall f, ~ In f (snapshot s MT_CLIENT_CLOSED) -> ~ In f (snapshot s MT_FAILED_MESSAGE) ->
+       (In f l -> is_ready s f = true -> eligible dm s f = true -> exists n, proj f fr = [OHdr (set_count hh n); OPay p]) /\
+       (~ (In f l /\ is_ready s f = true /\ eligible dm s f = true) -> proj f fr = [])) /\
+    (not_failed p -> forall g, In g (snapshot s MT_FAILED_MESSAGE) ->
+       failed_of (proj g fr) =
+         map (fun c => m_mod_id (find_mod c (mods s))) (filter (fun c => is_blocked s c || is_failing dm s c) l)).
+Proof. intros cfg fuel es u s k p hh. exact (forward_general_reachable cfg fuel es u s k p hh). Qed.
+
+(* the three kinds of recipient, and the environment hypothesis, spelled out *)
+Theorem C14_kinds : forall s c dm,
+  (is_ready s c = true <-> ready s c) /\
+  is_blocked s c = m_reg (find_mod c (mods s)) && negb (zmem c (wl s)) && negb (m_logger (find_mod c (mods s))) /\
+  is_failing dm s c = m_reg (find_mod c (mods s)) && zmem c (wl s) && eligible dm s c && exhausted s c.
+Proof. intros s c dm. split; [apply is_ready_spec|split; reflexivity]. Qed.
+
 (* the rest of the snapshot is visited whatever happened to one recipient *)
 Theorem C14_others_still_served : forall cfg rec p hh c r,
   deliver_loop cfg rec p hh (c :: r) = (hh' <- deliver_with cfg rec p hh c ;; deliver_loop cfg rec p hh' r).
@@ -119,3 +150,5 @@ Proof. vm_compute. reflexivity. Qed.
 (* non-vacuity of C14_failing_send: a reachable state meeting every hypothesis, and the outcome computed on it *)
 Definition C14_failing_send_ex_hypotheses := failing_send_ex_hypotheses.
 Definition C14_failing_send_ex_outcome := failing_send_ex_outcome.
+Definition C14_mixed_delivery_ex_hypotheses := loop_ex_hypotheses.
+Definition C14_mixed_delivery_ex_outcome := loop_ex_outcome.
